@@ -3,7 +3,7 @@
    dispatcher, packagers and mediator service; [pack]/[unpack_pkgr] are C01's. *)
 From Coq Require Import List NArith Bool.
 Import ListNotations.
-From VF Require Import C01.Model C01.Proofs C14.Model C14.Proofs.
+From VF Require Import C01.Model C01.Proofs C14.Model C14.Proofs C14.Opaque C14.OpaqueProofs.
 Local Open Scope N_scope.
 
 (* ------------------------------------------------------------------------------------------------------------
@@ -98,6 +98,64 @@ Proof.
   split; eexists; eexists; eexists; (split; [vm_compute; reflexivity|]); split; vm_compute; reflexivity.
 Qed.
 Print Assumptions peel_all_asis_refuted.
+
+(* ------------------------------------------------------------------------------------------------------------
+   FULL STATEMENT, part 2, as a Dolev-Yao statement (C14/Opaque.v).  The attacker holds the private halves of the
+   key pairs [own] — all mediators of all chains, outsiders, any keys at all — can produce every name that is not
+   [secret], and has EVERYTHING that is on the wire during any number of routed sends, in any order: for each send
+   the envelope packed for the recipients, every forward layer and every forward plaintext (type, 'to', wrapped
+   envelope) written as terms ([knowledge]; chains of any length, both embedding variants, all four packers).  He
+   splits tuples, opens a ciphertext / key wrap whose key he can derive, computes DH a b when he owns a or b, and
+   builds tuples, ciphertexts, key wraps and KDF outputs.  If every send is fit to be seen ([send_ok]: each pack —
+   the recipients' envelope and each forward layer — is either PROTECTED: no recipient key and no ephemeral key
+   of that pack is his, its CEK seed is a secret name (legacy authcrypt: nor the sender's key, the box key being
+   DH(sender, recipient)); or EXPOSED: its plaintext's name and its CEK seed are not claimed secret; and the names
+   that stand in the clear — header constants, key names, IVs, recipient indices — are not secret names), then NO
+   secret name is derivable: in particular the payload of every protected send, whatever mediators' keys he holds. *)
+Theorem hop_opacity_dolev_yao : forall own secret sends n,
+  Forall (send_ok own secret) sends -> secret n = true -> ~ dy own secret (knowledge sends) (Bytes n).
+Proof. exact secret_names_not_derivable. Qed.
+Print Assumptions hop_opacity_dolev_yao.
+
+(* the invariant behind it: from knowledge that is [safe] only safe terms are derivable — for ANY knowledge *)
+Theorem derivable_from_safe_is_safe : forall own secret K,
+  all_safe own secret K = true -> forall t, dy own secret K t -> safe own secret t = true.
+Proof. exact dy_safe. Qed.
+Print Assumptions derivable_from_safe_is_safe.
+
+(* one pack of C01's model, any packer, any number of recipients: fit to be seen *)
+Theorem pack_is_safe : forall own secret c spar payload sender rcpts rn w,
+  pack c spar payload sender rcpts rn = Ok w -> pack_ok own secret (packer_of c) payload sender rcpts rn ->
+  safe own secret (t_wire w) = true.
+Proof.
+  intros own secret c spar payload sender rcpts rn w Hp Hok.
+  exact (pack_safe own secret (proj1 (proj1 Hok)) c spar payload sender rcpts rn w Hp Hok).
+Qed.
+Print Assumptions pack_is_safe.
+
+(* the instance the correspondence evaluates on every real case: the coalition of EVERY key pair that is not a
+   recipient's (all mediators, all outsiders, the sender unless the packer is legacy authcrypt) against the payload's
+   name and the CEK seed of the recipients' envelope; where [coalition_safe] computes to true — it must on every case
+   the real dispatcher produced — neither is derivable from the whole view *)
+Theorem coalition_cannot_derive : forall c sender payload rcpts rn w0 ls n,
+  coalition_safe c sender payload rcpts rn w0 ls = true -> co_secret payload rn n = true ->
+  ~ dy (co_own (match packer_of c with LegAuth => true | _ => false end) sender rcpts (rn_eph rn)) (co_secret payload rn)
+       (view w0 ls) (Bytes n).
+Proof. exact coalition_safe_sound. Qed.
+Print Assumptions coalition_cannot_derive.
+
+(* ... and the same with the HYPOTHESES of hop_opacity_dolev_yao evaluated as booleans ([send_ok_b], sound): on every
+   real case the correspondence requires [coalition_ok] = true *)
+Theorem coalition_cannot_derive_from_send : forall v c pf spar sender payload rcpts routing rn n,
+  coalition_ok v c pf spar sender payload rcpts routing rn = true -> co_secret payload rn n = true ->
+  ~ dy (co_own (match packer_of c with LegAuth => true | _ => false end) sender rcpts (rn_eph rn)) (co_secret payload rn)
+       (send_view (mksend v c pf spar payload sender rcpts routing rn)) (Bytes n).
+Proof. exact coalition_ok_sound. Qed.
+Print Assumptions coalition_cannot_derive_from_send.
+
+Theorem send_ok_b_is_sound : forall own secret s, send_ok_b own secret s = true -> send_ok own secret s.
+Proof. exact send_ok_b_sound. Qed.
+Print Assumptions send_ok_b_is_sound.
 
 (* ------------------------------------------------------------------------------------------------------------
    FULL STATEMENT, part 3 (the mediator relays to the registrant and to nobody else).  [registrant h k] is computed
@@ -339,3 +397,58 @@ Example route_exact_nonvacuous :
           ONoInbox 1; ONoInbox 3; OBatch 2 [8]; OHeld 2 6; OBatch 2 [2; 6]] /\
   registrant (firstn 3 ops) x = Some 2 /\ registrant (firstn 3 ops) p = None /\ inbox s 2 = [].
 Proof. vm_compute. repeat split. Qed.
+
+(* ------------------------------------------------------------------------------------------------------------
+   non-vacuity of the Dolev-Yao statement *)
+Definition ex_secret (n : N) : bool := (n =? 1000156) || (n =? 200) || (n =? 5200).
+Definition ex_own (k : N) : bool := mem k [11; 12; 13; 40; 41; 7].
+(* two interleaved sends of one sender: an authcrypt JWE for keys 5, 6 over the mediators 11, 12, 13 (protected, secret
+   payload 500077) and an anoncrypt for key 7 — which the attacker HOLDS — over mediator 12 (exposed, public payload);
+   the attacker holds all three mediators' keys *)
+Definition ex_sends : list send :=
+  [mksend FFixed (mkcfg JweAuth P256 A256CBC512 DidKey) PV2 [1; 2] 500077 1 [5; 6]
+          [mkhop 11 P256; mkhop 12 X25519; mkhop 13 P384] (mkrnd 100 200 300);
+   mksend FFixed (mkcfg JweAnon X25519 XC20P DidKey) PV2 [1; 2] 3 0 [7] [mkhop 12 X25519] (mkrnd 5100 5201 5300)].
+
+Example hop_opacity_dolev_yao_nonvacuous :
+  Forall (send_ok ex_own ex_secret) ex_sends /\ ex_secret (pay_id 500077) = true /\
+  ex_own 11 = true /\ ex_own 12 = true /\ ex_own 13 = true /\ ex_own 7 = true /\
+  (length (knowledge ex_sends) = 10)%nat /\
+  ~ dy ex_own ex_secret (knowledge ex_sends) (Bytes (pay_id 500077)).
+Proof.
+  assert (H : Forall (send_ok ex_own ex_secret) ex_sends).
+  { constructor; [|constructor; [|constructor]]; apply send_ok_b_sound; vm_compute; reflexivity. }
+  split; [exact H|]. repeat (split; [vm_compute; reflexivity|]).
+  apply (hop_opacity_dolev_yao _ _ _ _ H). reflexivity.
+Qed.
+
+(* the attacker is not a straw man: holding recipient key 7 he derives the payload of the exposed send (were its name
+   secret); with a mediator's key he derives the forward his layer carries and, from it, the next envelope *)
+Example attacker_opens_what_his_keys_open :
+  let K := knowledge ex_sends in
+  dy ex_own (fun n => n =? pay_id 3) K (Bytes (pay_id 3)) /\
+  (forall n, In n consts -> (fun n => n =? pay_id 3) n = false).
+Proof.
+  cbv zeta. split.
+  2:{ intros n H. unfold consts in H. repeat (destruct H as [<-|H]; [reflexivity|]). destruct H. }
+  set (sec := fun n => n =? pay_id 3).
+  (* the recipients' envelope of the second send is the 6th term of the knowledge *)
+  assert (Hw : exists prot wk aad iv ct tag, In (Tup [prot; Tup [Tup [Tup []; wk]]; aad; iv; ct; tag]) (knowledge ex_sends) /\
+             wk = Wrap (kek_es ES_XC20PKW (dh 5100 7) (apu_es (Pub 5100)) (Tup [])) (cek_of (mkrnd 5100 5201 5300)) /\
+             exists a, ct = AEnc (cek_of (mkrnd 5100 5201 5300)) a (Bytes (pay_id 3))).
+  { vm_compute. do 6 eexists. split; [do 7 right; left; reflexivity|]. split; [reflexivity|eexists; reflexivity]. }
+  destruct Hw as [prot [wk [aad [iv [ct [tag [Hin [-> [a ->]]]]]]]]].
+  pose proof (DyKnown ex_own sec _ _ Hin) as D0.
+  assert (Dwk : dy ex_own sec (knowledge ex_sends) (Wrap (kek_es ES_XC20PKW (dh 5100 7) (apu_es (Pub 5100)) (Tup [])) (cek_of (mkrnd 5100 5201 5300)))).
+  { eapply DyProj; [eapply DyProj; [eapply DyProj; [exact D0|right; left; reflexivity]|left; reflexivity]|right; left; reflexivity]. }
+  assert (Dkek : dy ex_own sec (knowledge ex_sends) (kek_es ES_XC20PKW (dh 5100 7) (apu_es (Pub 5100)) (Tup []))).
+  { unfold kek_es. apply DyKdf. intros t Ht. repeat destruct Ht as [<-|Ht]; try (destruct Ht).
+    - apply DyName. reflexivity.
+    - apply DyName. reflexivity.
+    - vm_compute. apply DyDH. reflexivity.
+    - apply DyTup. intros t Ht. repeat destruct Ht as [<-|Ht]; try (destruct Ht); [apply DyName; reflexivity|apply DyPub].
+    - apply DyTup. intros t [].
+  }
+  pose proof (DyUnwrap _ _ _ _ _ Dwk Dkek) as Dcek.
+  eapply DyDec; [|exact Dcek]. eapply DyProj; [exact D0|do 4 right; left; reflexivity].
+Qed.
